@@ -352,14 +352,7 @@ func fieldToks(t []string, f *Field, sp Spans) []string {
 			t = append(t, "repeat")
 		}
 	}
-	switch f.Kind {
-	case Scalar, DynStr:
-		rep()
-		t = append(t, typeToks(f.Kind, f.Type, f.N, f.Alias)...)
-		t = append(t, f.Name)
-		doc()
-		t = append(t, ",")
-	case FixStr:
+	pad := func() {
 		if f.Pad != nil {
 			if f.Pad.Left {
 				t = append(t, "@leftPad")
@@ -372,12 +365,23 @@ func fieldToks(t []string, f *Field, sp Spans) []string {
 			}
 			t = append(t, ")")
 		}
+	}
+	switch f.Kind {
+	case Scalar, DynStr:
+		rep()
+		t = append(t, typeToks(f.Kind, f.Type, f.N, f.Alias)...)
+		t = append(t, f.Name)
+		doc()
+		t = append(t, ",")
+	case FixStr:
+		pad()
 		rep()
 		t = append(t, typeToks(f.Kind, f.Type, f.N, f.Alias)...)
 		t = append(t, f.Name)
 		doc()
 		t = append(t, ",")
 	case Obj, MetaRef:
+		pad()
 		rep()
 		t = append(t, f.Ref)
 		if f.Name != "" {
